@@ -208,6 +208,10 @@ class Equation:
             # Construct the term payloads
             term_payloads = []
             for term in inputs:
+                # With leader-follower intersection, the fibers are passed
+                # leader first, so the payloads must be unpacked leader first
+                term = self.__leader_first(rank, term)
+
                 payload = PVar(term[-1].fiber_name())
                 for factor in reversed(term[:-1]):
                     payload = PTuple([PVar(factor.fiber_name()), payload])
@@ -416,6 +420,27 @@ class Equation:
         trans_fn = AParam("trans_fn", ELambda(["i", "c", "p"], int_test))
 
         return EMethod(project, "prune", [trans_fn])
+
+    def __leader_first(self, rank: str, term: List[Tensor]) -> List[Tensor]:
+        """
+        Order the tensors of a term as their fibers are passed to the
+        leader-follower intersection at this rank (leader first), if any
+        """
+        if self.metrics is None:
+            return term
+
+        intersector = self.metrics.get_coiter(rank)
+        if not isinstance(intersector, LeaderFollowerComponent):
+            return term
+
+        einsum = self.program.get_equation().get_output().root_name()
+        for binding in intersector.get_bindings()[einsum]:
+            if binding["rank"] == rank:
+                leader = binding["leader"]
+                return [tensor for tensor in term if tensor.root_name() == leader] + \
+                    [tensor for tensor in term if tensor.root_name() != leader]
+
+        return term
 
     def __make_input_iter_expr(
             self,
